@@ -163,6 +163,17 @@ def gen_cases(tier, seed):
         cases.append({'seed': rng.randrange(1 << 30), 'min_part': C, 'transfers': [t], 'body_read_sizes': [65536] if C > 8 else [3],
                       'config': dict(multipart_threshold=C, multipart_chunksize=C, max_request_concurrency=rng.choice([2, 3, 4])),
                       'plan': {'gate': {'match': '/cb:on_progress', 'phase': 'before', 'policy': 'seeded', 'count': rng.choice([1, 2, 3])}}})
+    # executor / subscriber flavours: everything inline in the submitting thread (NonThreadedExecutor, what use_threads=False
+    # selects), no subscribers at all, and duck-typed subscribers offering only some callbacks
+    for s in cases:
+        if s.get('front_end') or s.get('mode') or s.get('yield'):
+            continue
+        r = rng.random()
+        if r < 0.12:
+            s['executor'] = 'nonthreaded'
+        for t in s['transfers']:
+            if 'subs' not in t and rng.random() < 0.12:
+                t['subs'] = rng.choice([[{'only': ['on_progress']}], [{}, {'only': ['on_progress', 'on_done']}]])
     rng.shuffle(cases)
     return cases
 
